@@ -101,7 +101,12 @@ def run_dataset(ctx, prop, case, via='function', index=0, reference=None, kinds=
     out = {}
     try:
         for kind in kinds:
-            exc = curves_common.run_curve(connection, kind, None if reference is None else reference.get(kind), db if via == 'cli' else None)
+            # message verbosity is an option like any other (0-3, cycling with the dataset index)
+            verbosity = (index // 2) % 4
+            if verbosity == 3:
+                rec.hit('curves-assembled-with-debug-messages-on')
+            exc = curves_common.run_curve(connection, kind, None if reference is None else reference.get(kind), db if via == 'cli' else None,
+                                          verbosity=verbosity)
             if exc is not None:
                 key, desc = curves_common.classify_outcome(exc)
                 if desc['origin'] == 'harness':
